@@ -53,7 +53,7 @@ def main():
             elif os.path.exists(p): os.remove(p)
         rc2, o2 = sh("cargo test --workspace --no-fail-fast --offline 2>&1 | grep -E '^test result|FAILED|panicked|error(\\[|:)' | head -60", wt, timeout=7200)
         passed = sum(int(x) for x in re.findall(r"(\d+) passed", o2)); failed = sum(int(x) for x in re.findall(r"(\d+) failed", o2))
-        res["suite_with_change"] = {"passed": passed, "failed": failed, "errors": [l for l in o2.splitlines() if "error" in l][:5]}
+        res["suite_with_change"] = {"passed": passed, "failed": failed, "errors": [l for l in o2.splitlines() if l.startswith("error")][:5]}
         for (src, dst), p in zip(pairs, installed):
             if os.path.isdir(src): shutil.copytree(src, p, dirs_exist_ok=True)
             else: shutil.copy(src, p)
